@@ -44,7 +44,10 @@ func mathChain(v ssa.Value) ([]string, []ssa.Value, ssa.Value) {
 	return names, args, v
 }
 
+var c15Runtime ReachSet
+
 func rulesC15(w *World, o *Out) {
+	c15Runtime = nil
 	fl := NewFlow(w)
 	o.Rule("C15.R1", "the bridge tax is amount.Mul(num).Quo(den) with num/den the numerator/denominator of the stored rate (multiplication before the truncating division); exempt sender, zero rate and unset tax return zero; SetBridgeTax refuses negative / unparsable rates")
 	o.Rule("C15.R2", "the tax locked, recorded, refunded and burned is that one value (C01.R3)")
@@ -142,12 +145,19 @@ func rulesC15(w *World, o *Out) {
 	muts := w.StoreMuts(fl)
 	nW := 0
 	for _, m := range muts {
-		if !m.Has("global:BridgeTransferUsagePrefix") || m.Op == "Delete" {
+		if !m.Has("global:BridgeTransferUsagePrefix") {
 			continue
 		}
 		f := TopFunc(m.Site.Fn)
-		gen := w.Reach(entryFns(w.EntriesOf("genesis")), nil)
-		if gen[f] != nil && f != upd {
+		if c15Runtime == nil {
+			c15Runtime = w.Reach(entryFns(w.EntriesOf("msg", "abci", "gov", "wasm", "hook", "ante")), nil)
+		}
+		if c15Runtime[f] == nil && f != upd {
+			continue // genesis import / export only
+		}
+		if m.Op == "Delete" {
+			// forgetting the running total inside a window lets the window's transfers exceed the limit
+			o.Fail("C15.R3", w.FuncKey(f)+"|the usage counter is never reset outside the limit check", w.Pos(m.Site.Instr.Pos()), "the running total of the current window is deleted; transfers accepted before and after the deletion are no longer summed against the limit")
 			continue
 		}
 		nW++
@@ -986,6 +996,26 @@ func rulesC18(w *World, o *Out) {
 				}
 			}
 			o.Check("C18.R3", "handleLightNodeSale|failure reaches the attestation's cached context", direct, pos, "the result of CreateSaleLightNodeClientLicense must be returned")
+			if pa := w.MustFunc(o, skw, "Keeper", "processAttestation"); pa != nil {
+				ai := atomicWrapper(pa)
+				onCache := false
+				nH := 0
+				if ai != nil {
+					for _, hs2 := range CallsIn(pa) {
+						if hs2.Callee.Name != "Handle" {
+							continue
+						}
+						nH++
+						for _, a := range hs2.Args() {
+							if derivesFromValue(a, ai.ctxVal) {
+								onCache = true
+							}
+						}
+					}
+				}
+				o.Check("C18.R3", "processAttestation|the sale handler runs on a cached context committed only on success", ai != nil && ai.okOnly && onCache && nH == 1, w.Pos(pa.Pos()),
+					"a failed sale (funder without spendable balance, fee grant failure) must leave no account, licence or escrow behind: Handle must receive the context returned by CacheContext, and commit must run only on success")
+			}
 		}
 	}
 	// writers of the sale configuration keys only from governance / genesis
